@@ -49,6 +49,7 @@ const (
 	oDeleteGone                 // a pod delete may find the pod already gone (stale cache): NotFound
 	oNoHistory                  // revisionHistoryLimit 0: every revision that is not live is trimmed at once
 	oViaSync                    // the reconcile is the per-key sync (listing, claiming, then UpdateStatefulSet) instead of UpdateStatefulSet on the snapshot
+	oOrphanPods                 // a pod of the snapshot may be an orphan waiting for adoption (no controller reference)
 )
 
 type vPodInfo struct {
@@ -101,8 +102,10 @@ func (s *vSnap) podNamed(name string) *vPodInfo {
 func (p *vPodInfo) runningReady() bool {
 	return sym.And(p.phase == string(v1.PodRunning), p.ready == string(v1.ConditionTrue))
 }
-func (p *vPodInfo) healthy() bool  { return sym.And(p.runningReady(), !p.term) }
-func (p *vPodInfo) finished() bool { return sym.Or(p.phase == string(v1.PodFailed), p.phase == string(v1.PodSucceeded)) }
+func (p *vPodInfo) healthy() bool { return sym.And(p.runningReady(), !p.term) }
+func (p *vPodInfo) finished() bool {
+	return sym.Or(p.phase == string(v1.PodFailed), p.phase == string(v1.PodSucceeded))
+}
 
 // vBuildSnap builds the symbolic snapshot. N pods at most, replicas <= R, at
 // most K delete slots.
@@ -259,6 +262,12 @@ func vBuildSnap(N, R, K, opts int) *vSnap {
 			pi.rev = sym.Str("rev", s.cur.Name, s.upd.Name)
 		}
 		setPodRevision(pod, pi.rev)
+		// (an orphan that is already terminating is ignored by the claim logic and is not part of what
+		// the reconcile sees; the monitors speak about the snapshot the reconcile saw)
+		if opts&oOrphanPods != 0 && !pi.term && sym.Pick("orphan", 2) == 1 {
+			pod.OwnerReferences = nil
+			sym.Cover("an orphan pod waits for adoption")
+		}
 		pi.pod = pod
 		if opts&oStalePods != 0 && sym.Pick("stale", 2) == 1 {
 			// created a moment ago: on the server, not yet in the cache the reconcile reads
